@@ -201,8 +201,11 @@ def probe_shapes(r, d, counter):
         return f'probe({counter[0]})'
     if d <= 0 or r.random() < 0.25:
         return leaf()
-    k = r.randrange(19)
+    k = r.randrange(21)
     E = lambda: probe_shapes(r, d - 1, counter)
+    if k == 18:
+        op = r.choice(['and', 'or'])
+        return f'({E()} {op} {E()} {op} {E()}' + (f' {op} {E()})' if r.random() < 0.4 else ')')
     if k == 0:
         return f'({E()} and {E()})'
     if k == 1:
@@ -223,6 +226,10 @@ def probe_shapes(r, d, counter):
         return f'(not {E()})'
     if k == 9:
         return f'str({E()})'
+    if k == 19:
+        return f'get({{"a": {E()}}}, "{r.choice(["a", "b"])}", {E()})'
+    if k == 20:
+        return f'{E()} if {E()} else {E()} if {E()} else {E()}'
     if k == 10:
         return f'get({{"1": {E()}}}, {E()}, {E()})'
     if k == 11:
@@ -304,10 +311,12 @@ def scope_cases(seed, n):
         ent = f'(S:{hx(nm)} D:0:42:0:c)' if host else ''
         body = r.choice([nm, f'[{nm}, apply({nm} => {nm}, 2)]', f'apply(w => {nm}, 1)', f'apply(({nm}, q) => [{nm}, q], 1)',
                          '1 / 0', 'undefinedname', f'apply(z => [{nm}, z], 1)', f'af({nm})', f'try_apply(af, {nm})',
-                         f'[af({nm}), {nm}]', f'ag({nm}, 1)'])
+                         f'[af({nm}), {nm}]', f'ag({nm}, 1)', f'[az(), {nm}]', f'[try_apply(az), try_apply(w => loc, 0), try_apply(w => p, 0)]',
+                         f'apply(p => [az(), p], 5)'])
         abody = r.choice([f'{nm} = 7\n{nm}', f'{nm} += 1\n{nm}', f'loc = {nm}\nloc', f'{nm} = [p]\n{nm}.push(1)\n{nm}',
                           f'{nm} = 1\n1 / 0', f'p = p + 1\np', f'{nm} = p\naf2({nm})'])
-        astfns = [('af', ['p'], abody), ('ag', [nm, 'p'], f'{nm} = 9\n[{nm}, p]'), ('af2', ['q'], f'{nm} = 3\nq')]
+        astfns = [('af', ['p'], abody), ('ag', [nm, 'p'], f'{nm} = 9\n[{nm}, p]'), ('af2', ['q'], f'{nm} = 3\nq'),
+                  ('az', [], r.choice([f'{nm} = 11\n{nm}', f'loc = 1\nloc', f'{nm} += 1\n{nm}', f'p = 2\np', f'{nm} = [1]\n{nm}']))]
         stmts = []
         if r.random() < 0.5:
             stmts.append(f'{nm} = 5')
@@ -324,14 +333,17 @@ def scope_cases(seed, n):
         if r.random() < 0.35:
             # the same call site evaluated before and after the callee's name is rebound (top level, host-level, or by a
             # parameter): name resolution happens at every evaluation of the call
-            fn = r.choice(['len', 'str', 'sum', 'abs', 'list', 'min', 'sorted', 'keys'])
+            fn = r.choice(['len', 'str', 'sum', 'abs', 'list', 'min', 'sorted', 'keys', 'rand', 'shuffle', 'max', 'int', 'float', 'reversed', 'values',
+                           'items', 'dict', 'round', 'join', 'map', 'filter', 'get', 'push', 'pop', 'pretty', 'upper', 'enumerate', 'index_of'])
             arg = r.choice(['[1, 2]', '[3]', '"ab"', '[-4, 2]'])
-            rebind = r.choice([f'{fn} = q => 99', f'{fn} = q => [q, q]', f'{fn} = str', f'{fn} = 5'])
+            rebind = r.choice([f'{fn} = q => 99', f'{fn} = q => [q, q]', f'{fn} = str', f'{fn} = 5', f'{fn} = v => v', f'{fn} = (a, b) => [a, b]',
+                               f'{fn} = w => w'])
             stmts += [f'cs = w => try_apply({fn}, {arg})', 'r1 = cs(0)', rebind, 'r2 = cs(0)',
                       f'r3 = apply({fn} => cs(0), len)', f'r4 = map([1, 2], w => try_apply(v => {fn}({arg}), 0))',
                       f'cs2 = w => try_apply(v => {fn}({arg}), 0)', 'r5 = [cs2(0), cs2(0)]',
-                      f'r6 = apply({fn} => cs2(0), q => "param")', 'r7 = cs2(0)']
-            stmts.append('[r1, r2, r3, r4, r5, r6, r7]')
+                      f'r6 = apply({fn} => cs2(0), q => "param")', 'r7 = cs2(0)', f'r8 = try_apply(w => {fn}(), 0)',
+                      f'r9 = try_apply(w => {fn}(1, 2), 0)']
+            stmts.append('[r1, r2, r3, r4, r5, r6, r7, r8, r9]')
         stmts.append(r.choice([nm, f'[{nm}, r]', 'r', f'try_apply(w => {nm}, 0)', f'try_apply(w => loc, 0)', 'try_apply(w => p, 0)']))
         src = '\n'.join(stmts)
         cases.append((eval_line(src, ent, astfns=astfns), src + ' || af: ' + abody.replace('\n', ' ; ')))
@@ -394,11 +406,12 @@ def alias_cases(seed, n):
         hv = r.choice(['(L 1 (L 2 I:1 I:2) (R 2) D:0:3:0:c)', '(M 1 (S:6b (L 2 I:1)) (S:6a (R 2)))', '(L 1 I:1 I:2 I:3)',
                        '(L 1 (M 2 (S:6b (L 3))) (L 4 I:1))', he.lnum(), he.dict_()])
         ent = f'(S:{hx("h")} {hv})'
-        form = r.randrange(26)
+        form = r.randrange(30)
         src0 = {10: 'x = h or []', 11: 'x = [] or h', 12: 'x = h and h', 13: 'x = (h if True else 0)', 14: 'x = h + [[0]]',
                 15: 'x = [h, 1][0]', 16: 'x = {"k": h}["k"]', 17: 'x = apply(v => v, h)', 18: 'x = get({"k": h}, "k")', 19: 'x = h[0:2]',
                 20: 'x = reversed(h)', 21: 'x = sorted(h, v => 0)', 22: 'x = 0; x = x or h', 23: 'c = {}; c["k"] = h or []; x = c["k"]',
                 24: 'c = [0]; c[0] = h + []; x = c[0]', 25: 'x = [0]; x[0] = h and h; x = x[0]',
+                26: 'h = h; x = h', 27: 'x = h; x = x', 28: 'y = h; x = y; y = y', 29: 't = [0]; t[0] = h; t[0] = t[0]; x = t[0]',
                 0: 'x = h', 1: 'c = [0, 0]; c[0] = h; x = c[0]', 2: 'x = [h, h]', 3: 'd = {}; d["k"] = h; x = d["k"]',
                 4: 'x = [1]; x += h', 5: 'c = [[1]]; c[0] += h; x = c[0]',
                 6: 'x = h; y = h; try_apply(w => y.push(5), 0); try_apply(w => y[0].push(6), 0)',
@@ -483,7 +496,9 @@ def rand_cases(seed, n):
         elif k == 4:
             src = 'x = rand(hl); [x, hl]'
         elif k == 5 and r.random() < 0.5:
-            src = r.choice(['push(shuffle(hl), 99); hl', '[shuffle(hl), hl]', 'x = [shuffle(hl), hl, rand(hl)]; hl.push(7); [x, hl]',
+            src = r.choice(['n = [hl, [1, 2, 3]]; s = shuffle(n[0]); push(s, 99); [s, n, hl]', 'd = {"k": hl}; s = shuffle(get(d, "k")); push(s, 99); [s, hl]',
+                            's = shuffle(apply(v => v, hl)); push(s, 99); [s, hl]', 's = shuffle(max(hl, hl)); push(s, 9); [s, hl]', 's = hl | shuffle; push(s, 9); [s, hl]',
+                            'push(shuffle(hl), 99); hl', '[shuffle(hl), hl]', 'x = [shuffle(hl), hl, rand(hl)]; hl.push(7); [x, hl]',
                             'shuffle(hl) | push(1); [hl, shuffle([]), shuffle([5])]'])
         else:
             src = 's = shuffle(hl); [s, hl]'
